@@ -118,15 +118,18 @@ class Operator:
             )
 
             for universal_effect in self.lifted_universal_effects:
-                self.logger.debug(
-                    "Updating the action's signature to temporarily include the quantified parameter."
-                )
-                self.action.signature[
-                    universal_effect.quantified_parameter
-                ] = universal_effect.quantified_type
                 if not pddl_object.type.is_sub_type(universal_effect.quantified_type):
                     continue
 
+                self.logger.debug(
+                    "Extending a copy of the action's signature with the quantified parameter."
+                )
+                extended_action = Action()
+                extended_action.name = self.action.name
+                extended_action.signature = {
+                    **self.action.signature,
+                    universal_effect.quantified_parameter: universal_effect.quantified_type,
+                }
                 self.logger.debug(
                     f"Trying to apply the universal effect on the object: {str(pddl_object)}"
                 )
@@ -145,7 +148,7 @@ class Operator:
                         lifted_discrete_effects=conditional_effect.discrete_effects,
                         lifted_numeric_effects=conditional_effect.numeric_effects,
                         domain=self.domain,
-                        action=self.action,
+                        action=extended_action,
                     )
                     grounded_conditional_effect.ground_conditional_effect(
                         extended_parameter_map
@@ -157,11 +160,6 @@ class Operator:
                         grounded_conditional_effect.apply(
                             current_state, previous_state=previous_state
                         )
-
-                self.logger.debug(
-                    "Removing the temporarily added signature item from the action."
-                )
-                self.action.signature.pop(universal_effect.quantified_parameter)
 
     def is_applicable(self, state: State) -> bool:
         """Checks if the action is applicable on the current state.
